@@ -1089,6 +1089,7 @@ def _generate_structure_virtual_field_methods(enclosing_type_name, field_ir, ir)
         parent_type=enclosing_type_name,
         write_methods=write_methods,
         value_is_ok=value_is_ok,
+        field_exists=field_exists.rendered,
     )
     definition = code_template.format_template(
         definition_template,
